@@ -218,6 +218,40 @@ def _unit(args):
             m = ds[bid].get_eventcount(a, b)
             if n != m:
                 u.violation(f"{backend}:eventcount-differs-from-windowed-count", f"{backend} bucket {bid} window {a.isoformat()}..{b.isoformat()}: query_bucket_eventcount {n} direct count {m}", {"backend": backend, "bucket": bid, "window": [a.isoformat(), b.isoformat()], "kind": "scope"}, size=wi)
+    # the store changes BETWEEN queries (insert, delete, replace, bucket deleted and re-created):
+    # the next query must see exactly what a direct read sees (nothing remembered from earlier queries)
+    ds2 = S.fresh(backend, ctx.wdir(), name="mut")
+    seed(ds2)
+    a, b = ws[0]
+    steps = (
+        ("insert", lambda: ds2["b1"].insert(Event(timestamp=T0 + timedelta(seconds=33), duration=timedelta(seconds=2), data={"app": "New", "title": "n", "url": "http://n/"}))),
+        ("delete", lambda: ds2["b1"].delete(ds2["b1"].get(1)[0].id)),
+        ("replace_last", lambda: ds2["b1"].replace_last(Event(timestamp=T0 + timedelta(seconds=71), duration=timedelta(seconds=1), data={"app": "R", "title": "r", "url": "http://r/"}))),
+        ("delete_bucket", lambda: ds2.delete_bucket("b2")),
+        ("recreate_bucket", lambda: (ds2.create_bucket("b2", "afkstatus", "c", "host2", created=T0), ds2["b2"].insert(Event(timestamp=T0, duration=timedelta(seconds=3), data={"status": "again"})))),
+        ("insert_empty", lambda: ds2["empty"].insert(Event(timestamp=T0 + timedelta(seconds=1), duration=timedelta(seconds=1), data={"k": 1}))),
+    )
+    for name, fn in (("start", lambda: None),) + steps:
+        fn()
+        for bid in ("b1", "b2", "empty"):
+            u.evaluations += 2
+            u.transitions += 2
+            u.states += 1
+            u.nontrivial += 1
+            present = bid in ds2.buckets()
+            try:
+                got = [S.ev_tuple(e) for e in query2.query("q", f'RETURN = query_bucket("{bid}");', a, b, ds2)]
+                n = query2.query("q", f'RETURN = query_bucket_eventcount("{bid}");', a, b, ds2)
+                outcome = "value"
+            except Exception as e:
+                outcome, got, n = type(e).__name__, None, None
+            if present:
+                want = [S.ev_tuple(e) for e in ds2[bid].get(-1, a, b)]
+                m = ds2[bid].get_eventcount(a, b)
+                if outcome != "value" or got != want or n != m:
+                    u.violation(f"{backend}:query-after-{name}-differs-from-windowed-read", f"{backend}: after {name}, query_bucket({bid!r}) gave {outcome} {got and got[:2]} count {n}; direct read {want[:2]} count {m}", {"backend": backend, "kind": "mutation", "step": name, "bucket": bid}, size=len(name))
+            elif outcome == "value":
+                u.violation(f"{backend}:query-of-deleted-bucket-returned-a-value", f"{backend}: after {name}, query_bucket({bid!r}) returned {got and got[:2]} although the bucket does not exist", {"backend": backend, "kind": "mutation", "step": name, "bucket": bid}, size=len(name))
     if progs:
         u.sample({"backend": backend, "program": Q.pr_program(progs[len(progs) // 2], Q.SPACED), "windows": len(ws)}, cap=1)
     S.close_all()
